@@ -42,6 +42,10 @@ def check(ctx):
     for o in ctx.obligations[n0:]:
         o["rule"] = o["rule"].replace("C07-D1", "C08-D6")
         o["key"] = o["key"].replace("C07-D1", "C08-D6")
+    # …including checkpointed chunks (stored at their own height only if they hash to the checkpoint), and the hash that is folded up the branch
+    # must be the transaction's own: double SHA-256 of its witness-free serialisation, cached only while the transaction is unchanged
+    R.share(ctx, "C07", {"C07-D3": "C08-D6/CHECKPOINT"})
+    R.share(ctx, "C05", {"C05-D3": "C08-D7"})
 
 
 def writers(ctx, prog):
